@@ -16,7 +16,7 @@ Doc == JsonDeserialize("doctable.json")
 Tab == Doc.tab
 Cases == ndJsonDeserialize("mutants.ndjson")
 N == Len(Cases)
-Chunk == 256
+Chunk == 16
 
 TermIdx(t) == CHOOSE j \in 1..Len(Tab.terms) : Tab.terms[j] = t
 SymIdx(x) == CHOOSE j \in 1..Len(Tab.syms) : Tab.syms[j] = x
@@ -32,9 +32,16 @@ Feed(st, t) == LET a == Act(st[Len(st)], t) IN
                                   IN Feed(Append(base, Tab.trans[base[Len(base)]][SymIdx(p.h)]), t)
                  [] OTHER -> <<>>
 \* 0: accepted; j in 1..Len: first offending token; Len+1: the sequence ends too early
+\* (evaluated in blocks of 40 tokens: TLC's cost per step grows with the depth of a recursion, and texts can be long)
+RECURSIVE Block(_, _, _, _)
+Block(kinds, j, st, n) == IF n = 0 \/ j > Len(kinds) THEN [bad |-> FALSE, j |-> j, st |-> st]
+                          ELSE LET s2 == Feed(st, "t:" \o kinds[j]) IN
+                               IF s2 = <<>> THEN [bad |-> TRUE, j |-> j, st |-> st] ELSE Block(kinds, j + 1, s2, n - 1)
 RECURSIVE FirstErr(_, _, _)
-FirstErr(kinds, j, st) == IF j > Len(kinds) THEN (IF Feed(st, "t:$end") = <<0>> THEN 0 ELSE j)
-                          ELSE LET s2 == Feed(st, "t:" \o kinds[j]) IN IF s2 = <<>> THEN j ELSE FirstErr(kinds, j + 1, s2)
+FirstErr(kinds, j, st) == LET r == Block(kinds, j, st, 40) IN
+                          IF r.bad THEN r.j
+                          ELSE IF r.j > Len(kinds) THEN (IF Feed(r.st, "t:$end") = <<0>> THEN 0 ELSE r.j)
+                          ELSE FirstErr(kinds, r.j, r.st)
 
 \* the reported position lies on token i (anywhere from its first to its last character)
 Inside(o, c, i) == o.ln = c.pos[i][1] /\ o.col >= c.pos[i][2] /\ o.col < c.pos[i][2] + c.lens[i]
